@@ -232,6 +232,11 @@ func (e *XNilBar) Error() string {
 	return e.Msg
 }
 
+// XCode is a renamed error type of basic kind (was "gen.XOldCode").
+type XCode int
+
+func (c XCode) Error() string { return fmt.Sprintf("TKUcodeQ %d", int(c)) }
+
 // GFoo is the generic type as old code (before the rename to GBar) has it.
 type GFoo[T any] struct {
 	Msg string
